@@ -177,6 +177,7 @@ type State struct {
 	fresh   []string // refs allocated on this path
 	opaqueEvents map[string]bool
 	dead    bool
+	tainted string // set when an assumed callee clause could not be evaluated on this path
 	trace   []string
 	run     int
 	cache   map[string]map[string]string
@@ -205,6 +206,7 @@ func (s *State) clone() *State {
 		trace:  append([]string(nil), s.trace...),
 		run:    s.run,
 		iterEpoch: s.iterEpoch,
+		tainted: s.tainted,
 	}
 	for _, f := range s.frames {
 		n.frames = append(n.frames, f.clone())
